@@ -43,6 +43,10 @@ func genC10Assign(t *simrt.Tape, sampleTypes []string) string {
 	K := simrt.KGen
 	rx := func() string { return c10Regexps[t.Choose(K, len(c10Regexps))] }
 	trx := func() string { return c10TagRx[t.Choose(K, len(c10TagRx))] }
+	if t.Bool(K, 6) {
+		// any option the tree defines, with a value of its type
+		return treeAssign(t, c10Regexps)
+	}
 	if t.Bool(K, 8) {
 		return []string{"source_path=/home/me/src", "source_path=/other/place/lib", "source_path=", "trim_path=/src", "trim_path=", "source_path=/home/me/src:/other/place/lib", "granularity=files", "files", "lines"}[t.Choose(K, 9)]
 	}
@@ -316,7 +320,7 @@ func genC10WebReq(t *simrt.Tape, withConfigOps bool) string {
 	}
 	n := t.Choose(K, 4)
 	for j := 0; j < n; j++ {
-		switch t.Choose(K, 20) {
+		switch t.Choose(K, 21) {
 		case 0:
 			q.Set("i", c10Regexps[t.Choose(K, len(c10Regexps))])
 		case 1:
@@ -358,6 +362,9 @@ func genC10WebReq(t *simrt.Tape, withConfigOps bool) string {
 			q.Set([]string{"nf", "ef"}[t.Choose(K, 2)], []string{"0", "0.5", "x"}[t.Choose(K, 3)])
 		case 19:
 			q.Set("unit", []string{"ms", "minimum", "parsecs"}[t.Choose(K, 3)])
+		case 20:
+			k, v := treeParam(t, c10Regexps)
+			q.Set(k, v)
 		}
 	}
 	r := path
